@@ -1,21 +1,20 @@
 /-
 C07 — property theorems: "Secure implies an unbroken chain to a trust anchor", about the model
 `Chain.validate` (Model/Chain.lean) of the validator *as repaired* by the fix commits aabfc01, e338561,
-8ec5af8, cdd0f6a, 2bee91e.  For every upstream `env.up`, every oracle valuation, every query, every fuel
-(= `request_depth` budget) — so for every hierarchy and every way of tampering with any response.
+8ec5af8, cdd0f6a, 2bee91e, a0f75fc, 207ce2a.  For every upstream `env.up`, every oracle valuation, every query,
+every fuel (= `request_depth` budget) — so for every hierarchy and every way of tampering with any response.
+All at full strength:
 
-  * `secure_implies_chain`        Secure record (not an RRSIG, not a DNSKEY) ⇒ `Chain` (Spec/ChainOfTrust.lean)   FULL
-  * `secure_dnskey_implies`       Secure DNSKEY ⇒ `KeySecure`                                                     FULL
-  * `secure_dnskey_signed`        Secure DNSKEY ⇒ `KeySigned` (trust anchor, or member of a *signed* RRset)        FULL
-  * `no_panic`                    the validator never panics                                                      FULL
-  * `ok_exits`                    the four ways `verify_response` returns Ok
-  * `insecure_implies_justified`  Insecure ⇒ for some zone a validated NSEC/NSEC3 denial of its DS, or a Secure DS
-                                  RRset without usable record                                                     FULL (no hypothesis)
-  * `insecure_implies_denial_partial`  … and that zone is the record's owner or an ancestor of it, under
-                                  `SignerDiscipline`; without it: `foreign_signer_inherits_insecure` (open finding
-                                  C07.ForeignSignerInheritsInsecure)
-  * `ad_only_if_all_secure`, `bogus_servfail_unless_cd`, `error_servfail`   (server mapping)                      FULL
-  * regression examples: the traces that replayed the eight repaired findings now end in Bogus / error / SERVFAIL
+  * `secure_implies_chain`     Secure record (not an RRSIG, not a DNSKEY) ⇒ `Chain` (Spec/ChainOfTrust.lean)
+  * `secure_dnskey_implies`    Secure DNSKEY ⇒ `KeySecure`
+  * `secure_dnskey_signed`     Secure DNSKEY ⇒ `KeySigned` (trust anchor, or member of a *signed* RRset)
+  * `no_panic`                 the validator never panics
+  * `ok_exits`                 the five ways `verify_response` returns Ok
+  * `insecure_implies_denial`  Insecure ⇒ for the record's owner or an ancestor of it, a validated NSEC/NSEC3 denial
+                               of its DS, or a Secure DS RRset without usable record
+  * `ad_only_if_all_secure`, `bogus_servfail_unless_cd`, `error_servfail`   (server mapping)
+  * `regression_*`: the traces that replayed the ten repaired findings now end in Bogus / error / SERVFAIL
+The open finding C07.AnchorKeyForeignOwnerSecure is inside the spec (`KeySigned`/`DirectKey`: "is a trust anchor").
 -/
 import HickoryVerif.Lemmas.Chain
 
@@ -223,16 +222,19 @@ def NsecDenied (env : Env) (q : Query) (m' : Msg) : Prop :=
 /-- the name whose zone must be provably insecure: the query name, for a DS query its parent -/
 def dsNameOf (q : Query) : DName := if q.qtype == tDS then q.name.baseName else q.name
 
-/-- **The exits of `verify_response`** (after fix 2bee91e): a response is returned `Ok` only if
+/-- **The exits of `verify_response`** (after fixes 2bee91e, a0f75fc): a response is returned `Ok` only if
 (1) its verified authority RRsets are Insecure throughout *and* `find_ds_records` proves the query name insecure,
-(2) the NSEC/NSEC3 oracle says Secure on the denial records selected from Secure owners,
-(3) there are no such records, no wildcard answer, and the answer section answers the question (a record of the
+(2) it is a plain positive answer: NOERROR, no wildcard expansion, a record of the query name and type in the
+    answer section (denial records attached to it are then not evaluated),
+(3) the NSEC/NSEC3 oracle says Secure on the denial records selected from Secure owners,
+(4) there are no such records, no wildcard answer, and the answer section answers the question (a record of the
     queried type, or a CNAME, at the query name), or
-(4) the answer section does not answer the question and `find_ds_records` proves the query name insecure. -/
+(5) the answer section does not answer the question and `find_ds_records` proves the query name insecure. -/
 theorem ok_exits (env : Env) (sub : Query → Res) (d : Nat) (q : Query) (m m' : Msg)
     (h : verifyMsg env sub d q (env.up q).qid m = .ok m') :
     (allAuthInsecure m'.ns (verdicts env sub d q (env.up q).qid 1 m.ns) = true ∧
       findDs env sub (dsNameOf q) = .err .insecure) ∨
+    (m'.rcode = 0 ∧ plainAnswer q m'.an = true) ∨
     NsecDenied env q m' ∨
     (selectDenial m'.ns tNSEC3 = [] ∧ selectDenial m'.ns tNSEC = [] ∧ answersTheQuestion q m'.an = true) ∨
     (answersTheQuestion q m'.an = false ∧ findDs env sub (dsNameOf q) = .err .insecure) := by
@@ -255,6 +257,12 @@ theorem ok_exits (env : Env) (sub : Query → Res) (d : Nat) (q : Query) (m m' :
         · simp at hearly
       · simp at hearly
     · right
+      split at h
+      · rename_i hpos
+        left
+        simp only [Bool.and_eq_true, beq_iff_eq] at hpos
+        exact ⟨hpos.1.2, hpos.2⟩
+      right
       split at h
       · rename_i _ h3 h1
         split at h
@@ -296,21 +304,14 @@ def DsDenied (env : Env) (zone : DName) : Prop :=
     ((md.an = [] ∧ NsecDenied env ⟨zone, tDS⟩ md) ∨
      ((∃ x ∈ md.an, x.rtype = tDS ∧ x.proof = .secure) ∧ NoSecureSupportedDs md))
 
-/-- Hypothesis excluding the open finding `C07.ForeignSignerInheritsInsecure`: in the upstream's responses an
-RRSIG names its owner or an ancestor of its owner as signer, and the answer to `z DNSKEY` holds DNSKEYs of `z`
-only.  (On a trace: `foreignSigner trace = false`.) -/
-def SignerDiscipline (env : Env) : Prop :=
-  (∀ q qid m, upMsg env q = some (qid, m) → ∀ sec, sec < 3 → ∀ s ∈ m.sec sec, s.isSig = true → s.signer <:+ s.name) ∧
-  (∀ z qid m, upMsg env ⟨z, tDNSKEY⟩ = some (qid, m) → ∀ k ∈ m.an, k.rtype = tDNSKEY → k.name = z)
-
 theorem denial_step {env : Env} (hc : UpClean env) (n : Nat)
     (ihI : ∀ d q m, validate env n d q = .ok m → ∀ sec, sec < 3 → ∀ r ∈ m.sec sec, r.proof = .insecure →
-      ∃ zone, DsDenied env zone ∧ (SignerDiscipline env → zone <:+ r.name))
-    (ihJ : ∀ d zone, fetchDs (validate env n d) zone = .err .insecure → ∃ zone', DsDenied env zone' ∧ zone' <:+ zone) :
+      ∃ zone, zone <:+ r.name ∧ DsDenied env zone)
+    (ihJ : ∀ d zone, fetchDs (validate env n d) zone = .err .insecure → ∃ zone', zone' <:+ zone ∧ DsDenied env zone') :
     (∀ d q m, validate env (n + 1) d q = .ok m → ∀ sec, sec < 3 → ∀ r ∈ m.sec sec, r.proof = .insecure →
-      ∃ zone, DsDenied env zone ∧ (SignerDiscipline env → zone <:+ r.name)) ∧
+      ∃ zone, zone <:+ r.name ∧ DsDenied env zone) ∧
     (∀ d zone, fetchDs (validate env (n + 1) d) zone = .err .insecure →
-      ∃ zone', DsDenied env zone' ∧ zone' <:+ zone) := by
+      ∃ zone', zone' <:+ zone ∧ DsDenied env zone') := by
   constructor
   · -- records of a response validated with n+1 levels left
     intro d q m h sec hsec r hr hp
@@ -338,53 +339,47 @@ theorem denial_step {env : Env} (hc : UpClean env) (n : Nat)
     unfold verifyGroup at hv
     dsimp only at hv
     have hgn : r0.gkey.1 = r0.name := rfl
+    rw [hname]
     split at hv
     · rcases verifyDnskeyRrset_insecure_cases _ _ _ _ _ _ hv.symm with hf | ⟨md, hmd, hx, hno⟩
-      · obtain ⟨zone', hd, hz⟩ := ihJ _ _ hf
-        exact ⟨zone', hd, fun _ => by rw [hname]; exact hz⟩
-      · exact ⟨r0.name, ⟨n, d + 1, md, hmd, Or.inr ⟨hx, hno⟩⟩, fun _ => by rw [hname]; exact List.suffix_refl _⟩
+      · exact ihJ _ _ hf
+      · exact ⟨r0.name, List.suffix_refl _, n, d + 1, md, hmd, Or.inr ⟨hx, hno⟩⟩
     · rcases verifyDefaultRrset_insecure_suffix _ _ _ _ _ _ hv.symm with
-        ⟨zone, hz, hf⟩ | ⟨s, mk, k, hs, hmk, hk, hkt, hkp⟩
-      · obtain ⟨zone', hd, hz'⟩ := ihJ _ _ hf
-        exact ⟨zone', hd, fun _ => by rw [hname]; exact hz'.trans hz⟩
-      · -- inherited from an Insecure DNSKEY of the answer to "<signer> DNSKEY"
-        obtain ⟨zone, hd, hz⟩ := ihI _ _ _ hmk 0 (by omega) k (by simpa [Msg.sec] using hk) hkp
-        refine ⟨zone, hd, fun hsd => ?_⟩
-        obtain ⟨hs1, hs2, hs3, _⟩ := mem_groupSigs hs
-        have hsig : s.signer <:+ s.name := hsd.1 q _ m0 hup sec hsec s hs1 hs2
-        obtain ⟨mk0, hkup, hks⟩ := validate_sound hc n (d + 1) _ mk hmk
-        have hkraw := (hks 0 (by omega) k (by simpa [Msg.sec] using hk)).1
-        have hkn : k.name = s.signer := by
-          have := hsd.2 s.signer _ mk0 hkup k.raw (by simpa [Msg.sec] using hkraw) (by simpa using hkt)
-          simpa using this
-        rw [hname, ← hgn, ← hs3]
-        exact ((hz hsd).trans (hkn ▸ List.suffix_refl _)).trans hsig
+        ⟨zone, hz, hf⟩ | ⟨s, mk, k, _, hsig, hmk, hk, _, hkn, hkp⟩
+      · obtain ⟨zone', hz', hd⟩ := ihJ _ _ hf
+        exact ⟨zone', hz'.trans hz, hd⟩
+      · -- inherited from an Insecure DNSKEY, owned by the signer, of the answer to "<signer> DNSKEY";
+        -- the signer is the owner or an ancestor of the owner (fix 207ce2a)
+        obtain ⟨zone, hz, hd⟩ := ihI _ _ _ hmk 0 (by omega) k (by simpa [Msg.sec] using hk) hkp
+        exact ⟨zone, (hz.trans (hkn ▸ List.suffix_refl _)).trans hsig, hd⟩
   · -- the DS lookup with n+1 levels left
     intro d zone hf
     obtain ⟨md, hmd, hno, hcase⟩ := fetchDs_insecure_cases _ _ hf
     rcases hcase with hx | hempty
-    · exact ⟨zone, ⟨n + 1, d, md, hmd, Or.inr ⟨hx, hno⟩⟩, List.suffix_refl _⟩
+    · exact ⟨zone, List.suffix_refl _, n + 1, d, md, hmd, Or.inr ⟨hx, hno⟩⟩
     · have hmd' := hmd
       unfold validate at hmd'
       obtain ⟨m0, hup, hm⟩ := verifyResponse_ok _ _ _ _ _ hmd'
       have hds : dsNameOf ⟨zone, tDS⟩ = DName.baseName zone := by simp [dsNameOf]
-      rcases ok_exits _ _ _ _ _ _ hm with h1 | h2 | h3 | h4
+      rcases ok_exits _ _ _ _ _ _ hm with h1 | h2 | h3 | h4 | h5
       · rw [hds] at h1
         obtain ⟨z2, hz2, hf2⟩ := findDs_insecure_suffix _ _ _ h1.2
-        obtain ⟨zone', hd, hz'⟩ := ihJ _ _ hf2
-        exact ⟨zone', hd, (hz'.trans hz2).trans (baseName_suffix _)⟩
-      · exact ⟨zone, ⟨n + 1, d, md, hmd, Or.inl ⟨hempty, h2⟩⟩, List.suffix_refl _⟩
-      · rw [hempty] at h3
-        simp [answersTheQuestion] at h3
-      · rw [hds] at h4
-        obtain ⟨z2, hz2, hf2⟩ := findDs_insecure_suffix _ _ _ h4.2
-        obtain ⟨zone', hd, hz'⟩ := ihJ _ _ hf2
-        exact ⟨zone', hd, (hz'.trans hz2).trans (baseName_suffix _)⟩
+        obtain ⟨zone', hz', hd⟩ := ihJ _ _ hf2
+        exact ⟨zone', (hz'.trans hz2).trans (baseName_suffix _), hd⟩
+      · rw [hempty] at h2
+        simp [plainAnswer] at h2
+      · exact ⟨zone, List.suffix_refl _, n + 1, d, md, hmd, Or.inl ⟨hempty, h3⟩⟩
+      · rw [hempty] at h4
+        simp [answersTheQuestion] at h4
+      · rw [hds] at h5
+        obtain ⟨z2, hz2, hf2⟩ := findDs_insecure_suffix _ _ _ h5.2
+        obtain ⟨zone', hz', hd⟩ := ihJ _ _ hf2
+        exact ⟨zone', (hz'.trans hz2).trans (baseName_suffix _), hd⟩
 
 theorem denial_all {env : Env} (hc : UpClean env) : ∀ n : Nat,
     (∀ d q m, validate env n d q = .ok m → ∀ sec, sec < 3 → ∀ r ∈ m.sec sec, r.proof = .insecure →
-      ∃ zone, DsDenied env zone ∧ (SignerDiscipline env → zone <:+ r.name)) ∧
-    (∀ d zone, fetchDs (validate env n d) zone = .err .insecure → ∃ zone', DsDenied env zone' ∧ zone' <:+ zone) := by
+      ∃ zone, zone <:+ r.name ∧ DsDenied env zone) ∧
+    (∀ d zone, fetchDs (validate env n d) zone = .err .insecure → ∃ zone', zone' <:+ zone ∧ DsDenied env zone') := by
   intro n
   induction n with
   | zero =>
@@ -393,29 +388,19 @@ theorem denial_all {env : Env} (hc : UpClean env) : ∀ n : Nat,
     simp [validate] at hmd
   | succ n ih => exact denial_step hc n ih.1 ih.2
 
-/-- **Insecure ⇒ a validated denial (full strength, no hypothesis beyond `UpClean`).**  If the validator returns any
-record with proof Insecure then, for some zone, it holds a validated response to that zone's DS query which is a
-negative answer proved by NSEC/NSEC3, or a Secure DS RRset in which no Secure record has a supported algorithm and
-digest type.  (Before fixes aabfc01 / 2bee91e this needed `DsAnswersHaveDs`.)  By induction on the fuel. -/
-theorem insecure_implies_justified {env : Env} (hc : UpClean env) {fuel d : Nat} {q : Query} {m : Msg}
-    (h : validate env fuel d q = .ok m) {sec : Nat} (hsec : sec < 3) {r : Rec} (hr : r ∈ m.sec sec)
-    (hp : r.proof = .insecure) : ∃ zone, DsDenied env zone := by
-  obtain ⟨zone, hd, _⟩ := (denial_all hc fuel).1 d q m h sec hsec r hr hp
-  exact ⟨zone, hd⟩
-
-/-- **Insecure ⇒ denial (partial).**  Full statement (`insecure_implies_denial`): a record is returned Insecure only
-if, for a zone cut at or above the record's owner, the DS query returned no DS with a validated denial, or only
-unsupported algorithms.  Proved under `SignerDiscipline`.  Without it the zone need not be related to the record:
-`verify_rrsig_with_keys` lets an RRset inherit "Insecure" from any Insecure DNSKEY in the answer to
-"<signer> DNSKEY", and the signer is whatever the RRSIG says — `foreign_signer_inherits_insecure`, open finding
-`C07.ForeignSignerInheritsInsecure`.  (The two gaps of before the fixes are closed: "answers present" now has to
-answer the question and "all authorities Insecure" now needs the query name to be provably insecure — `ok_exits`.) -/
-theorem insecure_implies_denial_partial {env : Env} (hc : UpClean env) (hsd : SignerDiscipline env)
+/-- **C07, Insecure ⇒ denial (full strength).**  If the validator returns any record `r` with proof Insecure then,
+for a zone that is `r`'s owner or an ancestor of it (the owner of a DNSKEY, the zone cut `find_ds_records` found,
+or the signer an RRSIG names — which is the owner or an ancestor since fix 207ce2a), it holds a *validated* response
+to that zone's DS query which is a negative answer proved by NSEC/NSEC3, or a Secure DS RRset in which no Secure
+record has a supported algorithm and digest type.  For every upstream, every oracle valuation, every fuel; by
+induction on the fuel, mutually with the same statement for `fetch_ds_records`.  (History: under `DsAnswersHaveDs`
+before aabfc01/2bee91e, under `SignerDiscipline` before 207ce2a; the counter-examples of then are the
+`regression_*` theorems below.) -/
+theorem insecure_implies_denial {env : Env} (hc : UpClean env)
     {fuel d : Nat} {q : Query} {m : Msg} (h : validate env fuel d q = .ok m) {sec : Nat} (hsec : sec < 3)
     {r : Rec} (hr : r ∈ m.sec sec) (hp : r.proof = .insecure) :
-    ∃ zone, zone <:+ r.name ∧ DsDenied env zone := by
-  obtain ⟨zone, hd, hz⟩ := (denial_all hc fuel).1 d q m h sec hsec r hr hp
-  exact ⟨zone, hz hsd, hd⟩
+    ∃ zone, zone <:+ r.name ∧ DsDenied env zone :=
+  (denial_all hc fuel).1 d q m h sec hsec r hr hp
 
 /-! ## no panic -/
 
@@ -478,6 +463,8 @@ theorem no_panic (env : Env) : ∀ (fuel d : Nat) (q : Query), validate env fuel
             · simp at hearly
           · simp at hearly
         · split at hv
+          · simp at hv
+          split at hv
           · split at hv <;> simp at hv
           · split at hv <;> simp at hv
           · simp at hv
@@ -733,73 +720,6 @@ def envForeignInsecure : Env :=
     nsec := fun qid mask _ => if qid == 2 && mask == 1 then .secure else .bogus }
 end Ex
 
-theorem zoneOf_suffix {z n : DName} (h : zoneOf z n = true) : z <:+ n := by
-  unfold zoneOf at h
-  simp only [Bool.and_eq_true, decide_eq_true_eq, beq_iff_eq] at h
-  rw [← h.2]
-  exact List.drop_suffix _ _
-
-/-- `SignerDiscipline` for an upstream that replays a trace on which the class predicate of
-`C07.ForeignSignerInheritsInsecure` is false -/
-theorem signerDiscipline_of_up (env : Env) (trace : List (Query × UpOut)) (hup : env.up = traceUp trace)
-    (h : foreignSigner trace = false) : SignerDiscipline env := by
-  unfold foreignSigner at h
-  simp only [List.any_eq_false] at h
-  constructor
-  · intro q qid m hupm sec hsec s hs hsig
-    unfold upMsg at hupm
-    rw [hup] at hupm
-    have key : ∀ m', (traceUp trace q).out = .ok m' ∨ (traceUp trace q).out = .noRecords m' →
-        s ∈ m'.all → s.signer <:+ s.name := by
-      intro m' hm hsm
-      rcases hm with hm | hm
-      · obtain ⟨e, he, _, heq2⟩ := traceFind_mem' trace 0 _ _ hm (by simp)
-        have := h e he
-        rw [heq2] at this
-        simp only [Bool.or_eq_true, not_or, Bool.not_eq_true, List.any_eq_false, Bool.and_eq_true,
-          Bool.not_eq_true', not_and, Bool.not_eq_false] at this
-        exact zoneOf_suffix (this.1 s hsm hsig)
-      · obtain ⟨e, he, _, heq2⟩ := traceFind_mem' trace 0 _ _ hm (by simp)
-        have := h e he
-        rw [heq2] at this
-        simp only [Bool.or_eq_true, not_or, Bool.not_eq_true, List.any_eq_false, Bool.and_eq_true,
-          Bool.not_eq_true', not_and, Bool.not_eq_false] at this
-        exact zoneOf_suffix (this.1 s hsm hsig)
-    split at hupm
-    · rename_i m' hm
-      injection hupm with hupm; injection hupm with _ hupm; subst hupm
-      refine key m' (Or.inl hm) ?_
-      unfold Msg.all
-      match sec, hsec with
-      | 0, _ => simp [Msg.sec] at hs; simp [hs]
-      | 1, _ => simp [Msg.sec] at hs; simp [hs]
-      | 2, _ => simp [Msg.sec] at hs; simp [hs]
-    · rename_i m' hm
-      injection hupm with hupm; injection hupm with _ hupm; subst hupm
-      refine key m' (Or.inr hm) ?_
-      unfold Msg.all
-      match sec, hsec with
-      | 0, _ => simp [Msg.sec] at hs
-      | 1, _ => simp [Msg.sec] at hs; simp [hs]
-      | 2, _ => simp [Msg.sec] at hs
-    · simp at hupm
-  · intro z qid m hupm k hk hkt
-    unfold upMsg at hupm
-    rw [hup] at hupm
-    split at hupm
-    · rename_i m' hm
-      obtain ⟨e, he, heq1, heq2⟩ := traceFind_mem' trace 0 _ _ hm (by simp)
-      have := h e he
-      rw [heq1, heq2] at this
-      injection hupm with hupm; injection hupm with _ hupm; subst hupm
-      simp only [Bool.or_eq_true, not_or, Bool.not_eq_true, tDNSKEY, beq_self_eq_true, Bool.true_and,
-        List.any_eq_false, Bool.and_eq_true, beq_iff_eq, bne_iff_ne, ne_eq, not_and, Decidable.not_not] at this
-      exact this.2 k hk hkt
-    · rename_i m' hm
-      injection hupm with hupm; injection hupm with _ hupm; subst hupm
-      simp at hk
-    · simp at hupm
-
 namespace Ex
 def nsZ : Rec := { name := ["z"], rtype := 2, rid := 30 }
 def emptyMsg : UpOut := .ok { rcode := 0, an := [], ns := [], ad := [] }
@@ -934,34 +854,22 @@ theorem regression_bogus_negative_without_soa :
     serverView false ⟨["b", "z"], 1⟩ (.ok { rcode := 3, an := [], ns := [nsec, sig, sigSoa], ad := [] }) = (2, false) := by
   decide
 
-/-! ### replays of the open findings -/
-
 open Ex in
-/-- **Replay of the open finding `C07.ForeignSignerInheritsInsecure`, route 1** (kernel-checked).  `www.z. A` comes
-with an RRSIG that names the unsigned zone `u.` as signer (class predicate true).  Nothing is verified: the RRset
-inherits "Insecure" from `u.`'s key and is returned Insecure with NOERROR, although `z.` is securely delegated. -/
-theorem foreign_signer_inherits_insecure :
-    foreignSigner traceForeignSigner = true ∧
-    validate (envForeign traceForeignSigner) 27 0 qA =
-      .ok { rcode := 0, an := [ins' a, ins' sigF], ns := [], ad := [] } ∧
-    serverView false qA (validate (envForeign traceForeignSigner) 27 0 qA) = (0, false) := by
+/-- (was `foreign_signer_inherits_insecure`, fix 207ce2a) `www.z. A` with an RRSIG naming the unsigned zone `u.` as
+signer: the RRSIG is not tried, the answer is Bogus, SERVFAIL -/
+theorem regression_foreign_signer :
+    validate (envForeign (traceForeignSigner ++ nsTrace ++ [(qDs, msg [dsz, sigDs])])) 27 0 qA =
+      .ok { rcode := 0, an := [bog' a, sigF], ns := [], ad := [] } ∧
+    serverView false qA (validate (envForeign (traceForeignSigner ++ nsTrace ++ [(qDs, msg [dsz, sigDs])])) 27 0 qA)
+      = (2, false) := by
   decide
 
 open Ex in
-/-- **… route 2** (kernel-checked): the honest RRSIG (signer `z.`), but the answer to `z. DNSKEY` holds a CNAME at
-`z.` and the Insecure key of `u.`; the RRset inherits "Insecure" from the foreign key. -/
-theorem foreign_key_inherits_insecure :
-    foreignSigner traceForeignKey = true ∧
-    validate (envForeign traceForeignKey) 27 0 qA = .ok { rcode := 0, an := [ins' a, ins' sigA], ns := [], ad := [] } := by
+/-- (was `foreign_key_inherits_insecure`, fix 207ce2a) the honest RRSIG, the answer to `z. DNSKEY` replaced by a CNAME
+at `z.` and the Insecure key of `u.`: the foreign key is not looked at, the answer is Bogus -/
+theorem regression_foreign_key :
+    validate (envForeign traceForeignKey) 27 0 qA = .ok { rcode := 0, an := [bog' a, sigA], ns := [], ad := [] } := by
   decide
-
-open Ex in
-/-- non-vacuity of `insecure_implies_justified` on that run: the Insecure record is justified by the validated NSEC
-denial of `u. DS` — a zone that is not above `www.z.`, which `insecure_implies_denial_partial` excludes under
-`SignerDiscipline`. -/
-example : ∃ zone, DsDenied (envForeign traceForeignSigner) zone :=
-  insecure_implies_justified (upClean_of_up _ traceForeignSigner rfl (by decide))
-    foreign_signer_inherits_insecure.2.1 (sec := 0) (by omega) (r := ins' a) (by simp [Msg.sec]) rfl
 
 namespace Ex
 /-- a legitimately insecure answer: `www.u. A` of the unsigned zone `u.` (no RRSIG); `u. NS` marks the zone cut -/
@@ -979,11 +887,10 @@ theorem ex_insecure_zone :
   decide
 
 open Ex in
-/-- non-vacuity of `insecure_implies_denial_partial`: its hypotheses (`UpClean`, `SignerDiscipline`) hold of the
-upstream of an honestly unsigned zone, and the conclusion names a zone cut above `www.u.` -/
+/-- non-vacuity of `insecure_implies_denial`: on the upstream of an honestly unsigned zone the conclusion names a
+zone cut at or above `www.u.` with a validated denial of its DS -/
 example : ∃ zone, zone <:+ ["www", "u"] ∧ DsDenied (envForeign traceInsecureZone) zone :=
-  insecure_implies_denial_partial (upClean_of_up _ traceInsecureZone rfl (by decide))
-    (signerDiscipline_of_up _ traceInsecureZone rfl (by decide))
+  insecure_implies_denial (upClean_of_up _ traceInsecureZone rfl (by decide))
     ex_insecure_zone (sec := 0) (by omega) (r := ins' au) (by simp [Msg.sec]) rfl
 
 end HickoryVerif.C07
